@@ -662,6 +662,11 @@ theorem splay_clear_frees_all {lt : Int → Int → Bool} (to : TotalOrder lt) (
   refine ⟨by simp at h3; omega, by simpa using h3, ?_⟩
   simp [ST.clear]
 
+/-- **`check()` characterised**: (after the fix of `splay_check`) it answers true exactly for search
+trees in the non-strict sense, for every strict weak order; before the fix it was constantly true -/
+theorem splay_check_characterised {lt : Int → Int → Bool} (sw : StrictWeak lt) (s : ST) :
+    s.check lt = true ↔ Bst lt s.root := splayCheck_iff sw s.root
+
 -- non-vacuity: the history of DESIGN §5 D13 (duplicates, erase of a key with equal neighbours)
 example :
     (inorder (({} : ST).run (fun a b => decide (a < b)) true
